@@ -805,7 +805,11 @@ impl Extension {
         number: impl Into<i64>,
         wtr: &mut W,
     ) -> Result<(), Error> {
-        let number = number.into();
+        // The decimal formatter pads to at most this many digits (the number
+        // of digits in `i64::MAX`).
+        const MAX_FORMATTER_PADDING: u8 = 19;
+
+        let mut number = number.into();
         let pad_byte = match self.flag {
             Some(Flag::PadZero) => b'0',
             Some(Flag::PadSpace) => b' ',
@@ -819,6 +823,18 @@ impl Extension {
 
         let mut formatter = DecimalFormatter::new().padding_byte(pad_byte);
         if let Some(width) = pad_width {
+            // Any width less than 256 is allowed, so when more padding is
+            // requested than the decimal formatter supports, we write the
+            // excess ourselves.
+            if width > MAX_FORMATTER_PADDING {
+                if let Some(abs) = number.checked_neg().filter(|n| *n > 0) {
+                    wtr.write_str("-")?;
+                    number = abs;
+                }
+                for _ in MAX_FORMATTER_PADDING..width {
+                    wtr.write_char(char::from(pad_byte))?;
+                }
+            }
             formatter = formatter.padding(width);
         }
         wtr.write_int(&formatter, number)
